@@ -1,14 +1,198 @@
 package main
 
 import (
+	"fmt"
 	"go/ast"
+	"go/parser"
+	"go/token"
+	"strconv"
 
 	"golang.org/x/tools/go/ast/astutil"
 )
 
-func (r *rewriter) replaceBodies() {}
+// os functions that are routed through simos (same name, site appended).
+var osFuncs = map[string]bool{
+	"Open": true, "OpenFile": true, "Create": true, "CreateTemp": true, "MkdirAll": true, "Mkdir": true,
+	"MkdirTemp": true, "Remove": true, "RemoveAll": true, "Rename": true, "Stat": true, "Lstat": true,
+	"ReadDir": true, "ReadFile": true, "WriteFile": true, "Readlink": true, "Symlink": true, "Chmod": true,
+	"Getwd": true, "Chdir": true, "Environ": true, "Getpid": true, "Exit": true, "FindProcess": true,
+}
 
-func (r *rewriter) rewritePkgCall(c *astutil.Cursor, x *ast.CallExpr, pkg, fn string) {}
+// os functions that touch durable state but have no simos counterpart: refuse to guess.
+var osUnsupported = map[string]bool{
+	"Truncate": true, "Link": true, "Chown": true, "Lchown": true, "Chtimes": true, "StartProcess": true,
+	"CopyFS": true, "Pipe": true, "Getppid": true,
+}
+
+var fileMethods = map[string]string{
+	"Write": "FileWrite", "WriteString": "FileWriteString", "Read": "FileRead", "Close": "FileClose",
+	"Stat": "FileStat", "Chmod": "FileChmod", "Sync": "FileSync",
+}
+
+var fileMethodsUnsupported = map[string]bool{"Truncate": true, "WriteAt": true, "ReadFrom": true, "Chown": true}
+
+func sos(name string) ast.Expr {
+	return &ast.SelectorExpr{X: ast.NewIdent("simos"), Sel: ast.NewIdent(name)}
+}
+
+func (r *rewriter) markOS(kind string) {
+	r.changed = true
+	r.useOS = true
+	stats[kind]++
+}
+
+func (r *rewriter) rewritePkgCall(c *astutil.Cursor, x *ast.CallExpr, pkg, fn string) {
+	site := r.site(x.Pos())
+	switch {
+	case pkg == "os" && osFuncs[fn]:
+		r.markOS("os-call")
+		x.Fun = sos(fn)
+		if x.Ellipsis.IsValid() {
+			unsup(r.fset, x.Pos(), "variadic os call")
+			return
+		}
+		x.Args = append(x.Args, site)
+	case pkg == "os" && osUnsupported[fn]:
+		unsup(r.fset, x.Pos(), "os."+fn+" has no simos counterpart")
+	case pkg == "io" && (fn == "Copy" || fn == "ReadAll"):
+		r.markOS("io-call")
+		x.Fun = sos(fn)
+		x.Args = append(x.Args, site)
+	case pkg == "io" && (fn == "CopyN" || fn == "CopyBuffer"):
+		unsup(r.fset, x.Pos(), "io."+fn)
+	case pkg == "io/ioutil":
+		unsup(r.fset, x.Pos(), "io/ioutil."+fn)
+	case pkg == "path/filepath" && fn == "Walk":
+		r.markOS("walk")
+		x.Fun = sos("Walk")
+		x.Args = append(x.Args, site)
+	case pkg == "path/filepath" && fn == "WalkDir":
+		unsup(r.fset, x.Pos(), "filepath.WalkDir")
+	case pkg == "os/signal" && fn == "Notify":
+		r.markOS("signal")
+		x.Fun = sos("SignalNotify")
+	case pkg == "os/signal":
+		unsup(r.fset, x.Pos(), "os/signal."+fn)
+	case pkg == "github.com/boyter/gocodewalker" && (fn == "NewParallelFileWalker" || fn == "NewFileWalker"):
+		r.markOS("filewalker")
+		x.Fun = sos("NewFileWalker")
+	}
+}
 
 func (r *rewriter) rewriteMethodCall(c *astutil.Cursor, x *ast.CallExpr, pkg, recv, name string, sel *ast.SelectorExpr) {
+	switch {
+	case pkg == "os" && recv == "File":
+		if fn, ok := fileMethods[name]; ok {
+			r.markOS("file-method")
+			args := append([]ast.Expr{sel.X}, x.Args...)
+			args = append(args, r.site(x.Pos()))
+			c.Replace(&ast.CallExpr{Fun: sos(fn), Args: args})
+		} else if fileMethodsUnsupported[name] {
+			unsup(r.fset, x.Pos(), "(*os.File)."+name)
+		}
+	case pkg == "go.uber.org/zap" && recv == "Config" && name == "Build":
+		r.markOS("zap-build")
+		x.Args = append(x.Args, &ast.CallExpr{Fun: sos("ZapOptions")})
+		x.Ellipsis = x.Rparen
+		if !x.Ellipsis.IsValid() {
+			x.Ellipsis = 1
+		}
+	}
+}
+
+// ---------------------------------------------------------------- import substitution
+
+func (r *rewriter) substituteImports() {
+	for _, imp := range r.file.Imports {
+		path, _ := strconv.Unquote(imp.Path.Value)
+		if path == "os/exec" {
+			name := "exec"
+			if imp.Name != nil {
+				name = imp.Name.Name
+			}
+			imp.Path = &ast.BasicLit{Kind: token.STRING, Value: strconv.Quote(simexecPath), ValuePos: imp.Path.ValuePos}
+			imp.Name = &ast.Ident{Name: name, NamePos: imp.Path.ValuePos}
+			imp.EndPos = 0
+			r.changed = true
+			stats["import-os/exec"]++
+		}
+	}
+}
+
+// ---------------------------------------------------------------- body replacements
+
+type bodyRepl struct {
+	pkg, fn string
+	params  int
+	src     string
+	needOS  bool
+}
+
+var bodyRepls = []bodyRepl{
+	{
+		pkg: "grog/internal/console", fn: "StartTaskUI", params: 1, needOS: true,
+		src: `{
+	wrappedCtx, cancel := context.WithCancel(ctx)
+	simos.RegisterUICancel(cancel)
+	deadCtx, deadCancel := context.WithCancel(context.Background())
+	deadCancel()
+	p := tea.NewProgram(nil, tea.WithContext(deadCtx), tea.WithInput(nil), tea.WithoutRenderer())
+	sendFunc := func(msg tea.Msg) {}
+	return WithTeaLogger(wrappedCtx, p), p, sendFunc
+}`,
+	},
+	{
+		pkg: "grog/internal/caching/backends", fn: "NewS3Cache", params: 2, needOS: true,
+		src: `{
+	client, ok := simos.Hook("s3client").(S3Client)
+	if !ok {
+		return nil, fmt.Errorf("simulation: no fake S3 client installed")
+	}
+	return NewS3CacheWithClient(ctx, cacheConfig, client)
+}`,
+	},
+}
+
+var replaced = map[string]bool{}
+
+func (r *rewriter) replaceBodies() {
+	r.substituteImports()
+	for _, br := range bodyRepls {
+		if r.pkg.Path() != br.pkg {
+			continue
+		}
+		for _, d := range r.file.Decls {
+			fd, ok := d.(*ast.FuncDecl)
+			if !ok || fd.Recv != nil || fd.Name.Name != br.fn || fd.Body == nil {
+				continue
+			}
+			if fd.Type.Params.NumFields() != br.params {
+				unsup(r.fset, fd.Pos(), fmt.Sprintf("stub target %s.%s changed its signature", br.pkg, br.fn))
+				continue
+			}
+			src := "package p\nfunc _() " + br.src
+			f, err := parser.ParseFile(r.fset, fmt.Sprintf("simrepl_%s.go", br.fn), src, 0)
+			if err != nil {
+				unsup(r.fset, fd.Pos(), "cannot parse replacement body: "+err.Error())
+				continue
+			}
+			fd.Body = f.Decls[0].(*ast.FuncDecl).Body
+			r.skip[fd.Body] = true
+			r.changed = true
+			if br.needOS {
+				r.useOS = true
+			}
+			replaced[br.pkg+"."+br.fn] = true
+			stats["body-replaced"]++
+		}
+	}
+}
+
+// checkReplaced reports stub targets that were not found (exit 2).
+func checkReplaced() {
+	for _, br := range bodyRepls {
+		if !replaced[br.pkg+"."+br.fn] {
+			unsupported = append(unsupported, fmt.Sprintf("SIMREWRITE-UNSUPPORTED stub target %s.%s not found", br.pkg, br.fn))
+		}
+	}
 }
